@@ -117,75 +117,89 @@ pub fn c18_q_multibyte_lengths() {
     layer1(2, &EBUF0, &EBUF1, &EBUF2, &EBUF3);
 }
 
-/// Layer 2: real formatting; which candidate is named.  Candidates are concrete
-/// strings; the received length is symbolic.  Expected: the earliest candidate at
-/// minimal distance, rendered byte for byte as "did you mean `X`? ".
+/// Layer 2: which candidate is named.  `alloc::fmt::format` is replaced by a probe that
+/// runs the REAL formatting machinery (`core::fmt::write`) into a writer recording the
+/// (pointer, length) of every piece written: `Display for str` hands the candidate's
+/// own slice to the writer, so the named candidate is identified by pointer identity,
+/// without any symbolic-length copy.
+pub static mut PIECES: [(usize, usize); 4] = [(0, 0); 4];
+pub static mut NPIECES: usize = 0;
+
+struct Probe;
+impl core::fmt::Write for Probe {
+    fn write_str(&mut self, s: &str) -> core::fmt::Result {
+        unsafe {
+            if NPIECES < 4 {
+                PIECES[NPIECES] = (s.as_ptr() as usize, s.len());
+            }
+            NPIECES += 1;
+        }
+        Ok(())
+    }
+}
+
+pub fn fmt_probe(args: core::fmt::Arguments<'_>) -> String {
+    let mut p = Probe;
+    let _ = core::fmt::write(&mut p, args);
+    String::from("!")
+}
+
 #[cfg(kani)]
-fn layer2(cands: &[&'static str]) {
+fn layer2(w: usize, b0: &'static [u8], b1: &'static [u8], b2: &'static [u8], b3: &'static [u8]) {
     unsafe {
-        WIDTH = 1;
+        WIDTH = w;
+        NPIECES = 0;
     }
     let n: usize = kani::any();
-    kani::assume(n <= 12);
-    let received = s(&BUF0, n, 1);
-    let out = did_you_mean(received, cands);
-    let mut best: Option<(usize, usize)> = None;
-    let mut i = 0;
-    while i < cands.len() {
-        let d = n.abs_diff(cands[i].len());
-        if best.map_or(true, |(b, _)| d < b) {
-            best = Some((d, i));
+    kani::assume(n <= 30);
+    let m: [usize; 3] = kani::any();
+    kani::assume(m[0] >= 1 && m[1] >= 1 && m[2] >= 1 && m[0] <= 30 && m[1] <= 30 && m[2] <= 30);
+    let received = s(b0, n, w);
+    let all = [s(b1, m[0], w), s(b2, m[1], w), s(b3, m[2], w)];
+    let out = did_you_mean(received, &all);
+    // earliest candidate at minimal distance
+    let mut best = (n.abs_diff(m[0]), 0usize);
+    let mut i = 1;
+    while i < 3 {
+        let d = n.abs_diff(m[i]);
+        if d < best.0 {
+            best = (d, i);
         }
         i += 1;
     }
-    let want = match (budget(n), best) {
-        (Some(bd), Some((d, i))) if d <= bd => Some(i),
+    let want = match budget(received.len()) {
+        Some(bd) if best.0 <= bd => Some(best.1),
         _ => None,
     };
     match want {
-        None => assert!(out.is_empty(), "C18: no suggestion expected"),
+        None => assert!(out.is_empty() && unsafe { NPIECES } == 0, "C18: no suggestion expected"),
         Some(i) => {
-            let x = cands[i].as_bytes();
-            let o = out.as_bytes();
-            let pre = b"did you mean `";
-            let post = b"`? ";
-            assert!(o.len() == pre.len() + x.len() + post.len(), "C18: the suggestion must name exactly the earliest closest accepted string");
-            let mut j = 0;
-            while j < pre.len() {
-                assert!(o[j] == pre[j], "C18: suggestion text");
-                j += 1;
-            }
-            j = 0;
-            while j < x.len() {
-                assert!(o[pre.len() + j] == x[j], "C18: the suggestion must name exactly the earliest closest accepted string");
-                j += 1;
-            }
-            j = 0;
-            while j < post.len() {
-                assert!(o[pre.len() + x.len() + j] == post[j], "C18: suggestion text");
-                j += 1;
-            }
+            assert!(!out.is_empty(), "C18: a suggestion is expected");
+            assert!(unsafe { NPIECES } == 3, "C18: the suggestion must name exactly one accepted string");
+            let (p, l) = unsafe { PIECES[1] };
+            assert!(p == all[i].as_ptr() as usize && l == all[i].len(), "C18: the suggestion must name the earliest accepted string at minimal distance");
         }
     }
-    kani::cover!(want == Some(0), "first candidate named");
-    kani::cover!(want.is_none() && n > 3, "nothing within budget");
+    kani::cover!(want == Some(0) && n.abs_diff(m[1]) == best.0, "tie: the earliest is named");
+    kani::cover!(want == Some(2), "the closest candidate is the last one");
+    kani::cover!(want.is_none() && received.len() > 3, "nothing within budget");
     core::mem::forget(out);
 }
 
 #[cfg(kani)]
 #[kani::proof]
-#[kani::unwind(16)]
+#[kani::unwind(5)]
 #[kani::stub(strsim::damerau_levenshtein, dl_stub)]
-pub fn c18_t_named_tie() {
-    // n = 5: both at distance 1 -> the earlier one ("aaaa") must be named
-    layer2(&["aaaa", "aaaaaa"]);
+#[kani::stub(alloc::fmt::format, fmt_probe)]
+pub fn c18_q_named_ascii() {
+    layer2(1, &BUF0, &BUF1, &BUF2, &BUF3);
 }
 
 #[cfg(kani)]
 #[kani::proof]
-#[kani::unwind(16)]
+#[kani::unwind(5)]
 #[kani::stub(strsim::damerau_levenshtein, dl_stub)]
-pub fn c18_t_named_min_last() {
-    // the closest candidate is not the first one
-    layer2(&["aaaaaaaaa", "aaaaa"]);
+#[kani::stub(alloc::fmt::format, fmt_probe)]
+pub fn c18_t_named_multibyte() {
+    layer2(2, &EBUF0, &EBUF1, &EBUF2, &EBUF3);
 }
